@@ -102,8 +102,12 @@ WriterTableOK(e) ==
           /\ e.len_runs[i][3] = VarIntLen(e.len_runs[i][1])
           /\ e.len_runs[i][3] = VarIntLen(e.len_runs[i][2])
 
+\* a value n = hi2 * 2^59 + hi * 2^28 + lo that does not fit TLC's integers: n > MaxVarInt iff hi + hi2 > 0
+HugeOK(e) == (e.hi > 0 \/ e.hi2 > 0) => IsErr(e.vlen, "InvalidVarByteInt") /\ IsErr(e.tlen, "InvalidVarByteInt")
+
 Accept(e) ==
     CASE e.ev = "HelperRuns"  -> HelperRunsOK(e)
+      [] e.ev = "VarIntHuge"  -> HugeOK(e)
       [] e.ev = "VarInt"      -> PointOK(e)
       [] e.ev = "VarIntPat"   -> PatOK(e)
       [] e.ev = "WriterTable" -> WriterTableOK(e)
